@@ -11,7 +11,9 @@ import (
 )
 
 func gen(r *vh.Rand) string {
-	if r.Chance(1, 20) {
+	// real transport on loopback sockets with large bodies: thorough tier only; the quick tier runs the fixed set in
+	// corpus/C08/transport.ops
+	if vh.Thorough && r.Chance(1, 20) {
 		return sim.GenTransport(r) // through the real bfe_http.Transport (third op stream)
 	}
 	k := sim.Knobs{MaxReqs: 1, Interleave: false, FinishPct: 3, ErrPct: 80}
